@@ -3,6 +3,7 @@ CONSTANTS
   Record = FALSE
   Scripts <- Scripts3
   FaultChoices <- Faults3
+  RouteChoices <- DistinctRoutes
 
 INVARIANT EachOnce
 INVARIANT ReturnsAfterAll
